@@ -1050,4 +1050,45 @@ theorem parseUri_apply (p : Pat) (m : KV) (hwf : p.strWf = true) (hb : p.boundBy
             rw [hpo] at this
             intro hin; exact this (by simp [hin])
 
+/-! ### one binding per parameter -/
+
+theorem unapplyParts_length (segs : List Seg) (parts : List Bytes) (acc r : KV)
+    (h : unapplyParts segs parts acc = some r)
+    (hnd : ((segParams segs).map decodeLossy).Nodup)
+    (hfresh : ∀ e ∈ acc, e.1 ∉ (segParams segs).map decodeLossy) :
+    r.length = acc.length + (segParams segs).length := by
+  induction segs generalizing parts acc with
+  | nil =>
+    cases parts with
+    | nil => simp [unapplyParts] at h; subst h; simp [segParams]
+    | cons p ps => simp [unapplyParts] at h
+  | cons s ss ih =>
+    cases parts with
+    | nil => cases s <;> simp [unapplyParts] at h
+    | cons p ps =>
+      cases s with
+      | lit l =>
+        have hp : segParams (Seg.lit l :: ss) = segParams ss := by
+          simp only [segParams]; rw [List.filterMap_cons]; rfl
+        rw [hp] at hnd hfresh ⊢
+        simp only [unapplyParts] at h
+        split at h
+        · exact ih ps acc h hnd hfresh
+        · simp at h
+      | param n =>
+        have hp : segParams (Seg.param n :: ss) = n :: segParams ss := by simp [segParams, Seg.name?]
+        rw [hp] at hnd hfresh ⊢
+        simp only [List.map_cons, List.nodup_cons] at hnd
+        simp only [unapplyParts] at h
+        split at h
+        · simp at h
+        · rw [kvInsert_fresh _ _ acc (fun e he heq => hfresh e he (by simp [heq]))] at h
+          have := ih ps _ h hnd.2 (by
+            intro e he
+            simp only [List.mem_append, List.mem_singleton] at he
+            rcases he with he | rfl
+            · intro hin; exact hfresh e he (by simp at hin ⊢; exact Or.inr hin)
+            · exact hnd.1)
+          rw [this]; simp; omega
+
 end SwimVerif.Route
